@@ -77,6 +77,42 @@ def cases_of(ctx, b):
     return out
 
 
+def alias_cases(b):
+    """lists in which the same array object stands at several positions (e.g. one blank crop used for every empty line)"""
+    if b["transformer"]:
+        return []
+    out = []
+    ws = [x for x in (33, 448, 500, 1) if x in b["widths"]][:3]
+    for w0 in ws:
+        for bs in b["bs"][:2]:
+            out.append({"w": [w0], "alias": [0, 0], "bs": bs, "mode": dict(MODES["sparse"]), "transformer": False, "mlw": None,
+                        "route": "engine", "bounds": b["name"]})
+            out.append({"w": [w0], "alias": [0, 0, 0], "bs": bs, "mode": dict(MODES["dense-tight"]), "transformer": False, "mlw": None,
+                        "route": "engine", "bounds": b["name"]})
+            for w1 in ws:
+                if w1 != w0:
+                    for al in ([0, 1, 0], [1, 0, 0], [0, 1, 1, 0]):
+                        out.append({"w": [w0, w1], "alias": al, "bs": bs, "mode": dict(MODES["sparse"]), "transformer": False,
+                                    "mlw": None, "route": "engine" if len(al) == 3 else "page", "bounds": b["name"]})
+    return out
+
+
+def judge_alias(ctx, b, cases, traces, pad):
+    """aliased lists are judged at property level only (the design models lists of distinct objects)"""
+    if not cases:
+        return
+    loose = constants(b, pad=pad, Strict=False)
+    acc, rej = ctx.validate("LineBatcher_Trace", traces, constants=loose, label="LineBatcher_Trace %s aliased lists" % b["name"])
+    for c in cases:
+        ctx.count(1, (b["name"], "alias", tuple(c["w"]), tuple(c["alias"]), c["bs"]))
+    for i, prog in rej:
+        kind, what = _describe(traces[i], prog)
+        if kind == "unfinished":
+            kind, what = "alias", "a position holding an object that also stands elsewhere in the list did not receive that object's result"
+        ctx.violation({"bounds": b, "case": cases[i], "pad": pad, "trace": _short(traces[i]), "progress": prog}, "ctc:" + kind,
+                      "%s; widths %s positions->objects %s batch size %d" % (what, cases[i]["w"], cases[i]["alias"], cases[i]["bs"]))
+
+
 def _pad_of_engine(ctx):
     eng = L.StubEngine(L._config_path(None), 1, "ctc")
     return int(eng.line_padding_px)
@@ -174,6 +210,8 @@ def run(ctx):
         cases = cases_of(ctx, b)
         traces = pmap(L.run_case, cases, procs=6)
         judge(ctx, b, cases, traces, pad)
+        acases = alias_cases(b)
+        judge_alias(ctx, b, acases, [L.run_case(c) for c in acases], pad)
     ctx.notes["explanation"] = ("TLC exhaustive on LineBatcher per bounds entry (invariants %s, properties Terminates/Progress); every "
                                 "width list of the same bounds run through the real process_lines with the provenance stub engine and "
                                 "validated by LineBatcher_Trace (Strict, then property-level)" % INVS)
